@@ -11,12 +11,16 @@
 (*   Greeting  : the same in the other direction -- in some runs the server *)
 (*               speaks first (writes on the accepted connection before it  *)
 (*               reads) and the client reads that before it writes          *)
+(*   Accept    : messages delivered while accept() hands the backlog to the *)
+(*               socket (deliveries made from another thread, recorded by   *)
+(*               `sockrace-drive`) are read after the backlog, in order,    *)
+(*               none lost (SockPipe.tla AcceptTake / AcceptDrain)          *)
 (***************************************************************************)
 EXTENDS Integers, Sequences, FiniteSets, TLC, Json, IOUtils
 Rec == ndJsonDeserialize(IOEnv.TRACE)
 VARIABLES l, s
 Init0 == [run |-> -1, backlog |-> FALSE, stream |-> TRUE, totals |-> <<>>, nwrites |-> <<>>, got |-> [c \in 0..7 |-> 0], finished |-> {}, maxq |-> 0,
-          greet |-> 0, cgot |-> [c \in 0..7 |-> 0], ngreet |-> 0,
+          greet |-> 0, cgot |-> [c \in 0..7 |-> 0], ngreet |-> 0, nconn |-> 0, nconc |-> 0,
           bad |-> {}, nbad |-> 0, runs |-> 0, events |-> 0]
 Viol(t, e, clause) ==
   IF Cardinality({x \in t.bad : x.clause = clause}) >= 3 THEN [t EXCEPT !.nbad = @ + 1]
@@ -38,6 +42,11 @@ Step(t, e) ==
                                     ELSE "bytes read are not the next bytes of the peer's writes (lost, duplicated or reordered)")
                    ELSE IF e.off + e.len > t.totals[e.c + 1] THEN Viol(t1, e, "more bytes read than written") ELSE t1
          IN IF e.c >= 0 THEN [t2 EXCEPT !.got[e.c] = @ + e.len] ELSE t2
+    [] e.ev = "rconn" ->
+         LET t1 == IF e.in_order THEN t0
+                   ELSE Viol(t0, e, "messages delivered while accept() was handing the backlog to the socket overtook the backlog (read out of order)")
+             t2 == IF e.got + e.refused = e.sent THEN t1 ELSE Viol(t1, e, "a message accepted by the socket layer was never read")
+         IN [t2 EXCEPT !.nconn = @ + 1, !.nconc = @ + (IF e.at_accept < e.sent THEN 1 ELSE 0)]
     [] e.ev = "reader_done" -> IF e.c >= 0 THEN [t0 EXCEPT !.finished = @ \cup {e.c}] ELSE t0
     [] e.ev = "dgram" ->
          IF ~e.intact \/ e.len < 2 THEN Viol(t0, e, "a datagram was delivered altered")
@@ -56,7 +65,8 @@ Step(t, e) ==
 Init == l = 1 /\ s = Init0
 Next == l <= Len(Rec) /\ s' = Step(s, Rec[l]) /\ l' = l + 1
 Spec == Init /\ [][Next]_<<l, s>>
-Report == TLCSet(1, [bad |-> s.bad, nbad |-> s.nbad, runs |-> s.runs, events |-> s.events, greeting_bytes |-> s.ngreet])
+Report == TLCSet(1, [bad |-> s.bad, nbad |-> s.nbad, runs |-> s.runs, events |-> s.events, greeting_bytes |-> s.ngreet,
+                     accepts_judged |-> s.nconn, accepts_with_concurrent_deliveries |-> s.nconc])
 Final == /\ PrintT(<<"TRACE-RESULT", ToJson(TLCGet(1))>>)
          /\ PrintT(<<"TRACE-SUMMARY", ToJson([events |-> Len(Rec), consumed |-> TLCGet("stats").diameter - 1])>>)
 =============================================================================
